@@ -7,10 +7,11 @@ From Crux Require Import Gen.Registry_kvapp Gen.Registry_malapp Gen.Registry_zoo
 Import ListNotations.
 
 (* The property as stated: whatever bytes arrive, no step of any bridge over any app panics.  It is
-   false of the faithful model as soon as the code below the bridge can panic on a value that DECODED
-   correctly (crux_kv does: see C12_kv_mismatch_refuted), so what is proved is: (1) the bridge and the
+   false of a model whose parameters (the app and capability code below the bridge) may panic on a
+   value that DECODED correctly - crux_kv used to, until fix e5ed299 - so what is proved is: (1) the bridge and the
    decoder never panic by themselves - every panic is raised by app or capability code on a
-   well-typed value; (2) if that code does not panic on well-typed values, nothing does. *)
+   well-typed value; (2) if that code does not panic on well-typed values, nothing does; (3) with
+   crux_kv's own continuation under the bridge nothing panics, unconditionally (C12_kv_total). *)
 Definition C12_full_statement : Prop :=
   forall reg ev_fmt (app : Type) on_event on_output alloc_id (s : bstate app) (i : input),
     step reg ev_fmt app on_event on_output alloc_id s i <> BPanic.
@@ -154,23 +155,22 @@ Definition C12_decode_bounded_full_statement : Prop :=
   forall (alloc_trace : registry -> format -> list byte -> list N) reg f b x,
     In x (alloc_trace reg f b) -> (x <= N.max MAX_PREALLOC_BYTES (16 * N.of_nat (length b)))%N.
 
-(* Known class.  With crux_kv's continuation under the bridge, a byte string that IS a well-formed
-   KeyValueResult but of a kind the call does not expect makes the real code panic
-   (crux_kv/src/lib.rs unwrap functions).  The model agrees, and that is the only way: *)
-Theorem C12_kv_mismatch_refuted :
-  exists c b, kv_respond Registry_kvapp c b = BPanic /\
-              known_kv_mismatch Registry_kvapp (call_kind c) b = true.
-Proof.
-  exists (CSet [] []), (repeat Coq.Init.Byte.x00 12). vm_compute. split; reflexivity.
-Qed.
+(* crux_kv under the bridge (the instance that used to be a known class): for EVERY byte string offered
+   as the response to a pending key-value call made through crux_kv, handle_response returns - a value
+   or an error, never a panic.  Before fix e5ed299 the 12 zero bytes `Ok{Get{None}}` answering a Set
+   panicked; now the app is told KeyValueError::Other "unexpected response: expected Set". *)
+Theorem C12_kv_total : forall reg c b, kv_respond reg c b <> BPanic.
+Proof. exact kv_respond_total. Qed.
 
-Theorem C12_kv_total_partial : forall reg c b,
-  known_kv_mismatch reg (call_kind c) b = false -> kv_respond reg c b <> BPanic.
-Proof. intros reg c b H P. apply kv_respond_panics_iff in P. congruence. Qed.
+Theorem C12_kv_mismatch_is_an_error : forall reg c b x,
+  bridge_in reg b = Some (KOk x) -> response_kind x <> call_kind c ->
+  exists r, bridge_in reg b = Some r /\ deliver Command c r = Failed (mismatch_error (call_kind c)).
+Proof. exact kv_respond_mismatch. Qed.
 
-Theorem C12_kv_known_exact : forall reg c b,
-  kv_respond reg c b = BPanic <-> known_kv_mismatch reg (call_kind c) b = true.
-Proof. exact kv_respond_panics_iff. Qed.
+Example C12_kv_former_witness :
+  kv_respond Registry_kvapp (CSet [] []) (repeat Coq.Init.Byte.x00 12) = BOk {| core := tt; entries := [] |} [] /\
+  option_map (deliver Command (CSet [] [])) (bridge_in Registry_kvapp (repeat Coq.Init.Byte.x00 12)) = Some (Failed (mismatch_error KSet)).
+Proof. vm_compute. split; reflexivity. Qed.
 
 (* non-vacuity: a truncated event is rejected by the model, an extended one is accepted with the
    extension left over, a huge length prefix is rejected *)
